@@ -4,7 +4,8 @@ import json
 import absval as A
 import blockrun as B
 
-RULE = ("seeded shape-directed valid blocks of the nine types (0/1/many items, gap patterns incl. first/last/all-missing, "
+RULE = ("(2 % of the blocks, 8 % in the thorough tier, sit on the scale axis: 255 ... 65537 frames or 15 ... 257 items) " 
+        "seeded shape-directed valid blocks of the nine types (0/1/many items, gap patterns incl. first/last/all-missing, "
         "labels of length 0,1,w-2,w-1, extreme floats, both 3D formats, both camera formats, float32 and float64 user arrays, "
         "both viewport spellings); non-trivial = >=2 items or >=1 gap or links or a None cell or BTS camera format; distinct by value")
 ASSUMPTIONS = ["samples compared as bit patterns after narrowing to the on-disk width (float32/float64); NaN only as wholly-missing frames",
